@@ -442,11 +442,15 @@ func (d *drv) runCase(in *caseInput) {
 			if strings.HasPrefix(pr.Kind, "index-") {
 				class = "c11-index-unchecked"
 			}
+			if pr.Kind == "index-on-scalar" || pr.Kind == "index-into-string" {
+				// D14 non-array part: kept by fix 7a3eec3 (pinned by the repository's TestIPFSContext)
+				class = "c11-index-on-non-array"
+			}
 			if pr.Kind == "missing-index" {
 				class = "c11-index-missing"
 			}
 			if pr.Kind == "index-on-single" {
-				// not covered by fix 8c11b39: the source document holds a one-member array, the
+				// not covered by fix 7a3eec3: the source document holds a one-member array, the
 				// stored entry carries no index
 				class = "c11-index-single-member"
 			}
